@@ -230,4 +230,100 @@ example : (demo.run (fullGCSteps demo [])).dir = (fullGC demo []).dir
 /-- without the discipline safety fails: a meta that resurrects a file GC already selected -/
 example : Disc demo [.gcCompute, .track [30], .gcDelete 30 true] = false := by decide
 
+/-! ## fine-grained collection, loading reader, emptied segments (guards extracted from the source) -/
+
+/-- the extracted orders satisfy the guards (a change of the order of these calls in
+`garbage_collect`, `open_segment_readers` or `committed_segment_metas` breaks this theorem) -/
+theorem C10_extracted_orders :
+    gcLivingUnderLocks Gen.GC_STEP_ORDER = true ∧ gcSyncBeforeForget Gen.GC_STEP_ORDER = true ∧
+    readerListsUnderLock Gen.READER_STEP_ORDER = true ∧
+    dropsEmptyBeforeListing Gen.COMMITTED_METAS_CALLS = true := by decide
+
+/-- an idle state (no collection in flight, no lock held, meta.json's files exist and are
+protected by live metas) satisfies the fine-grained invariant -/
+theorem C10_finv_idle (s : St) (mf : List Path) (hp : s.pending = none)
+    (hm : ∀ p ∈ mf, p ∈ living s ∧ p ∈ s.dir) : FInv { base := s, metaFiles := mf } := by
+  refine ⟨C10_ginv_of_idle s hp, ?_, hm, ?_, fun _ => rfl, fun h => by cases h⟩
+  · intro L hL; cases hL
+  · intro F hF; cases hF
+
+/-- **atomicity of the living set is derived, not assumed**: in the fine-grained model —
+`garbage_collect` as separate steps (locks, living callback, selection, unlock, deletes, finish),
+a reader as separate steps (lock, read meta.json, open files, unlock), the lock semantics, and
+writer threads that track / drop metas, create files and publish meta.json — with the step
+orders EXTRACTED from the source, every interleaving that respects the writer discipline is
+safe: no delete hits a needed file and every file a loading reader opens exists. -/
+theorem C10_gc_and_reader_safe (s : FSt) (h : FInv s) (evs : List FEv)
+    (hd : FDisc (gcLivingUnderLocks Gen.GC_STEP_ORDER) (readerListsUnderLock Gen.READER_STEP_ORDER) s evs = true) :
+    FSafe s evs := by
+  have h1 : gcLivingUnderLocks Gen.GC_STEP_ORDER = true := C10_extracted_orders.1
+  have h2 : readerListsUnderLock Gen.READER_STEP_ORDER = true := C10_extracted_orders.2.2.1
+  rw [h1, h2] at hd
+  exact h.safe evs hd
+
+/-- state of the examples: committed segment {10,11} listed in meta.json, a worker's segment
+{20,21} (21 not yet created), leftovers 30 -/
+def fdemo : FSt :=
+  { base := { dir := [0, 10, 11, 20, 30], managed := [0, 10, 11, 20, 30], live := [[10, 11], [20, 21]],
+              pending := none, deleted := [], failed := [] },
+    metaFiles := [10, 11] }
+
+example : FInv fdemo := C10_finv_idle _ _ rfl (by decide)
+/-- non-vacuity: a collection, a worker, a commit that replaces the segment and a reader, interleaved -/
+example : FDisc true true fdemo
+    [.gLock, .gLiving, .track [40, 41], .gSelect, .gUnlock, .openWrite 21, .openWrite 40, .rLock, .rList,
+     .gDelete 30 true, .rOpen 10, .openWrite 41, .publish [40, 41], .drop 1, .rOpen 11, .rUnlock, .gFinish,
+     .gLock, .gLiving, .gSelect, .gUnlock, .gDelete 10 true, .gDelete 11 true, .gFinish] = true := by decide
+
+/-- `C10_living_before_lock_counterexample`: if the living callback ran BEFORE the locks
+(`gcUnder = false`), the discipline admits: living computed; a worker starts a new segment and
+creates its first file; locks, selection, unlock; the delete of that file — a needed file. -/
+theorem C10_living_before_lock_counterexample :
+    let evs : List FEv := [.gLiving, .track [50, 51], .openWrite 50, .gLock, .gSelect, .gUnlock]
+    FDisc false true fdemo (evs ++ [.gDelete 50 true]) = true ∧ 50 ∈ needed (fdemo.run evs).base := by
+  decide
+
+/-- `C10_reader_lists_before_lock_counterexample`: if the reader read meta.json BEFORE taking
+META_LOCK (`rdUnder = false`), the discipline admits: reader lists {10,11}; a commit publishes a
+new segment and drops the old one; a collection deletes 10; the reader locks and opens 10 — gone. -/
+theorem C10_reader_lists_before_lock_counterexample :
+    let evs : List FEv := [.rList, .track [40], .openWrite 40, .publish [40], .drop 1,
+      .gLock, .gLiving, .gSelect, .gUnlock, .gDelete 10 true, .rLock]
+    FDisc true false fdemo (evs ++ [.rOpen 10]) = true ∧ 10 ∉ (fdemo.run evs).base.dir := by
+  decide
+
+/-- **a commit leaves nothing but what meta.json lists** (emptied segments): with
+`committed_segment_metas` dropping the emptied entries from the committed register before it
+lists the metas (extracted order), the live metas after the commit are exactly the listed ones,
+so after one complete collection every remaining file is `meta.json` or a file of a segment that
+meta.json lists. -/
+theorem C10_commit_drops_emptied_segments (s : St) (reg : List SegEntry)
+    (hreg : ∀ p ∈ s.dir, p ∈ s.managed)
+    (hlive : s.live = (committedMetas (dropsEmptyBeforeListing Gen.COMMITTED_METAS_CALLS) reg).1.map SegEntry.files) :
+    ∀ p ∈ (fullGC s []).dir, p = META ∨
+      ∃ e ∈ (committedMetas (dropsEmptyBeforeListing Gen.COMMITTED_METAS_CALLS) reg).2, p ∈ e.files := by
+  have hg : dropsEmptyBeforeListing Gen.COMMITTED_METAS_CALLS = true := C10_extracted_orders.2.2.2
+  rw [hg] at hlive ⊢
+  intro p hp
+  have hl := C10_no_orphans_quiescent s hreg p hp
+  simp only [living, List.mem_cons, List.mem_flatten] at hl
+  rcases hl with h0 | ⟨l, hl, hpl⟩
+  · exact Or.inl h0
+  · right
+    rw [hlive] at hl
+    simp only [committedMetas, if_true, List.mem_map] at hl
+    obtain ⟨e, he, rfl⟩ := hl
+    exact ⟨e, by simpa [committedMetas] using he, hpl⟩
+
+/-- without the drop (`dropEmpty = false`) the files of a fully deleted segment survive the
+commit's collection although meta.json does not list the segment -/
+theorem C10_emptied_segment_counterexample :
+    let reg : List SegEntry := [⟨[10, 11], 3⟩, ⟨[20, 21], 0⟩]
+    let s : St := { dir := [0, 10, 11, 20, 21], managed := [0, 10, 11, 20, 21],
+                    live := (committedMetas false reg).1.map SegEntry.files, pending := none, deleted := [], failed := [] }
+    20 ∈ (fullGC s []).dir ∧ ∀ e ∈ (committedMetas false reg).2, 20 ∉ e.files := by
+  decide
+
+example : (committedMetas true [⟨[10, 11], 3⟩, ⟨[20, 21], 0⟩]).1 = [⟨[10, 11], 3⟩] := by decide
+
 end TantivyModel.C10
